@@ -231,20 +231,32 @@ fn one_program(cx: &mut Ctx, i: u64) {
                 sim.retain(|(n, _)| n != n2);
                 sim.push((n2.clone(), to_sim_val(&Val::Tuple(vec![primary[n2].clone()]), &bt)));
             }
-            let wv = witness_values(&sim);
-            cx.report.evaluations += 1;
-            match satisfy(&built.compiled, &wv, None) {
-                Outcome::Err(_) => {
-                    cx.report.count("mistyped_rejected", 1);
-                    cx.report.note("mistype_classes", class);
-                    cx.report
-                        .nontrivial
-                        .insert(fnv64(format!("{text}|bad|{name}|{}", render_ty(&bad_ty)).as_bytes()));
+            // the same mistyped map alone and together with names the program does not declare
+            // (each map is a fresh hash map, so the iteration order of the names varies)
+            for extra in 0..4usize {
+                let mut sim2 = sim.clone();
+                for k in 0..extra {
+                    sim2.push((format!("{}{k}", ["zz_unused", "A_unused", "m"][k % 3]), to_sim_val(&Val::u(8, k as u128), &Ty::U(8))));
                 }
-                o => {
-                    cx.report.violation(json!({"kind": "accepted-bad-map", "what": format!("witness `{name}` declared {} supplied as {} ({class}): satisfy -> {}",
-                        render_ty(t), render_ty(&bad_ty), o.map(|_| ()).brief()), "program": text,
-                        "signature": format!("c05-bad:{key:016x}:{class}")}));
+                let wv = witness_values(&sim2);
+                cx.report.evaluations += 1;
+                match satisfy(&built.compiled, &wv, None) {
+                    Outcome::Err(_) => {
+                        cx.report.count("mistyped_rejected", 1);
+                        if extra > 0 {
+                            cx.report.count("mistyped_with_extra_names_rejected", 1);
+                        }
+                        cx.report.note("mistype_classes", class);
+                        cx.report
+                            .nontrivial
+                            .insert(fnv64(format!("{text}|bad|{name}|{}|{extra}", render_ty(&bad_ty)).as_bytes()));
+                    }
+                    o => {
+                        cx.report.violation(json!({"kind": "accepted-bad-map", "what": format!("witness `{name}` declared {} supplied as {} ({class}), {extra} undeclared names in the map: satisfy -> {}",
+                            render_ty(t), render_ty(&bad_ty), o.map(|_| ()).brief()), "program": text,
+                            "signature": format!("c05-bad:{key:016x}:{class}")}));
+                        break;
+                    }
                 }
             }
         }
